@@ -160,7 +160,9 @@ Definition hook_units : list unit_spec := [
   mkUnit "esm.hook" "esm.BeginBlocker" ""
          ["esm.SnapshotOfPrices"; "esm.SetUpCollateralRedemptionForVault"; "esm.SetUpCollateralRedemptionForStableVault";
           "esm.SetUpDebtRedemptionForCollector"; "esm.SetUpShareCalculation"];
-  mkUnit "lend.hook" "lend.BeginBlocker" "" ["lend.DeletePoolAndTransferInterest"]
+  mkUnit "lend.hook" "lend.BeginBlocker" "" ["lend.DeletePoolAndTransferInterest"];
+  (* the two outer wraps of the V2 auction hook (each sweep as a whole) *)
+  mkUnit "v2.auctions.hook" "auctionsV2.BeginBlocker" "" ["auctionsV2.UpdateDutchAuction"; "auctionsV2.PlaceDutchAuctionBid"]
 ].
 
 Definition leaf_is_call (c : string) (l : leaf) : bool :=
@@ -180,6 +182,9 @@ Definition unit_is_wrapped (t : list (string * hook)) (u : unit_spec) : bool :=
 (* the units that are genuinely not wrapped per item on the current tree (known findings) *)
 Definition kf_C15_1 (uid : string) : bool := String.eqb uid "v2.borrow".
 Definition kf_C15_3 (uid : string) : bool := String.eqb uid "v2.surplusdebt".
+(* environment class: the liquidation parameters are absent from the parameter store; GetParams
+   (unwrapped prologue of both sweeps) panics *)
+Definition kf_C15_4 (params_present : bool) : bool := negb params_present.
 Definition unit_known_unwrapped (u : unit_spec) : bool := kf_C15_1 (u_id u) || kf_C15_3 (u_id u).
 
 (* ------------------------------------------------------------------------------------------ *)
